@@ -522,12 +522,88 @@ pub assume_specification<T: Clone> [<[T]>::to_vec] (s: &[T]) -> (r: Vec<T>)
 /// Stands for `Extents::new(0.into(), BasicNumber::max_value())` (number literals of the opaque SimpleNumber; rule R8)
 #[verifier::external_body]
 pub fn verif_all_extents() -> (r: Extents<BasicNumber>)
+    ensures number_to_usize(r.start) == 0, number_to_usize(r.end) == usize::MAX  // 0 -> 0; Float(f64::MAX) saturates
 { unimplemented!() }
 
 impl DataIndexIterator {
     /// the items the iterator has still to yield, in order
     pub open spec fn rem(&self) -> Seq<usize> {
         if self.current <= self.items@.len() { self.items@.skip(self.current as int) } else { Seq::empty() }
+    }
+}
+
+// ---------------------------------------------------------------------------------
+// C11 / C16: the flat item sequence of a concatenation over Basic's data table (the same reading as unit V1's `walk`):
+// a concatenation is replaced by its two sides, a list contributes the addresses its item cells hold, any other value itself
+// ---------------------------------------------------------------------------------
+pub open spec fn cat_opt<X>(v: Seq<X>, t: Option<Seq<X>>) -> Option<Seq<X>> {
+    match t { Some(x) => Some(v + x), None => None }
+}
+/// what the value at `r` contributes
+pub open spec fn hereB<T: BasicDataCustom>(v: Seq<BasicData<T>>, r: usize) -> Seq<usize> {
+    match v[r as int] { BasicData::List(len, _) => Seq::new(len as nat, |k: int| item_addr(v[r + 1 + k])), _ => seq![r] }
+}
+pub open spec fn walkB<T: BasicDataCustom>(v: Seq<BasicData<T>>, work: Seq<usize>, fuel: nat) -> Option<Seq<usize>>
+    decreases fuel
+{
+    if work.len() == 0 { Some(Seq::empty()) }
+    else if fuel == 0 { None }
+    else {
+        let r = work.last(); let rest = work.drop_last();
+        if r >= v.len() { None }
+        else { match v[r as int] {
+            BasicData::Concatenation(l, rr) => walkB(v, rest.push(rr).push(l), (fuel - 1) as nat),
+            _ => cat_opt(hereB(v, r), walkB(v, rest, (fuel - 1) as nat)),
+        } }
+    }
+}
+pub open spec fn walkedB<T: BasicDataCustom>(v: Seq<BasicData<T>>, w0: Seq<usize>, vis: Seq<usize>, work: Seq<usize>, k: nat) -> bool {
+    (forall|f: nat| f < k ==> (#[trigger] walkB(v, w0, f)) is None)
+    && (forall|f: nat| f >= k ==> #[trigger] walkB(v, w0, f) == cat_opt(vis, walkB(v, work, (f - k) as nat)))
+}
+pub proof fn lemma_walkedB_init<T: BasicDataCustom>(v: Seq<BasicData<T>>, w0: Seq<usize>)
+    ensures walkedB(v, w0, Seq::empty(), w0, 0)
+{
+    assert forall|f: nat| f >= 0 implies #[trigger] walkB(v, w0, f) == cat_opt(Seq::<usize>::empty(), walkB(v, w0, (f - 0) as nat)) by {
+        match walkB(v, w0, f) { Some(x) => { assert(Seq::<usize>::empty() + x =~= x); } None => {} }
+    }
+}
+pub proof fn lemma_walkedB_concat<T: BasicDataCustom>(v: Seq<BasicData<T>>, w0: Seq<usize>, vis: Seq<usize>, wb: Seq<usize>, k: nat, l: usize, r: usize)
+    requires walkedB(v, w0, vis, wb, k), wb.len() > 0, wb.last() < v.len(), v[wb.last() as int] matches BasicData::Concatenation(a, b) && a == l && b == r,
+    ensures walkedB(v, w0, vis, wb.drop_last().push(r).push(l), k + 1)
+{
+    let wn = wb.drop_last().push(r).push(l);
+    assert forall|f: nat| f >= k + 1 implies #[trigger] walkB(v, w0, f) == cat_opt(vis, walkB(v, wn, (f - (k + 1)) as nat)) by {
+        assert(walkB(v, w0, f) == cat_opt(vis, walkB(v, wb, (f - k) as nat)));
+        assert(walkB(v, wb, (f - k) as nat) == walkB(v, wn, (f - k - 1) as nat));
+    }
+    assert forall|f: nat| f < k + 1 implies (#[trigger] walkB(v, w0, f)) is None by {
+        if f == k { assert(walkB(v, w0, f) == cat_opt(vis, walkB(v, wb, 0))); }
+    }
+}
+pub proof fn lemma_walkedB_value<T: BasicDataCustom>(v: Seq<BasicData<T>>, w0: Seq<usize>, vis: Seq<usize>, wb: Seq<usize>, k: nat)
+    requires walkedB(v, w0, vis, wb, k), wb.len() > 0, wb.last() < v.len(), !(v[wb.last() as int] is Concatenation),
+    ensures walkedB(v, w0, vis + hereB(v, wb.last()), wb.drop_last(), k + 1)
+{
+    let wn = wb.drop_last(); let h = hereB(v, wb.last());
+    assert forall|f: nat| f >= k + 1 implies #[trigger] walkB(v, w0, f) == cat_opt(vis + h, walkB(v, wn, (f - (k + 1)) as nat)) by {
+        assert(walkB(v, w0, f) == cat_opt(vis, walkB(v, wb, (f - k) as nat)));
+        let t = walkB(v, wn, (f - k - 1) as nat);
+        assert(walkB(v, wb, (f - k) as nat) == cat_opt(h, t));
+        match t { Some(x) => { assert(vis + (h + x) =~= (vis + h) + x); } None => {} }
+    }
+    assert forall|f: nat| f < k + 1 implies (#[trigger] walkB(v, w0, f)) is None by {
+        if f == k { assert(walkB(v, w0, f) == cat_opt(vis, walkB(v, wb, 0))); }
+    }
+}
+pub proof fn lemma_walkedB_done<T: BasicDataCustom>(v: Seq<BasicData<T>>, w0: Seq<usize>, vis: Seq<usize>, k: nat, fuel: nat, flat: Seq<usize>)
+    requires walkedB(v, w0, vis, Seq::empty(), k), walkB(v, w0, fuel) == Some(flat),
+    ensures flat == vis,
+{
+    if fuel < k { assert(walkB(v, w0, fuel) is None); }
+    else {
+        assert(walkB(v, w0, fuel) == cat_opt(vis, walkB(v, Seq::<usize>::empty(), (fuel - k) as nat)));
+        assert(vis + Seq::<usize>::empty() =~= vis);
     }
 }
 
